@@ -2191,9 +2191,11 @@ class Array:
 
         """
         if len(args) == 0 == len(kwargs):
-            self._data = [func(t) for t in self._data]
+            data = [func(t) for t in self._data]
         else:
-            self._data = [func(t, *args, **kwargs) for t in self._data]
+            data = [func(t, *args, **kwargs) for t in self._data]
+        # e.g. np.real returns a (non-contiguous) view, np.imag of a real array is read-only
+        self._data = [t if (t.flags.writeable and t.flags.c_contiguous) else np.array(t, order='C') for t in data]
         if len(self._data) > 0:
             self.dtype = self._data[0].dtype
         return self
